@@ -123,7 +123,13 @@ func execHTTP(f []string) string {
 
 	router := &fakeRouter{conn: &fakeConn{s: sc}, route: newRoute(cs, ss, "*", rbpPath(rbp))}
 	bridge := webbridge.NewTranscodedHTTPBridge(router, webbridge.TranscodedHTTPBridgeOpts{Transcoder: newTranscoder()})
-	srv := httptest.NewServer(bridge)
+	// event trace of the response loop: R<i> = the target handed out response i, W<n> = one Write of n bytes on the
+	// ResponseWriter the bridge was given, F = one Flush on it (recorded in the order the real code performs them)
+	tr := &traceLog{}
+	sc.trace = tr
+	srv := httptest.NewServer(http.HandlerFunc(func(w http.ResponseWriter, r *http.Request) {
+		bridge.ServeHTTP(&recWriter{ResponseWriter: w, tr: tr}, r)
+	}))
 	defer srv.Close()
 
 	var body []byte
@@ -166,11 +172,13 @@ func execHTTP(f []string) string {
 	var lines lineSplitter
 	var sse sseParser
 	var raw []byte
+	var chunks []string // sizes of the chunks the network handed to the client, in order
 	buf := make([]byte, 4096)
 	for {
 		n, rerr := resp.Body.Read(buf)
 		if n > 0 {
 			raw = append(raw, buf[:n]...)
+			chunks = append(chunks, strconv.Itoa(n))
 			mu.Lock()
 			if isSSEResp {
 				sse.feed(buf[:n])
@@ -212,7 +220,47 @@ func execHTTP(f []string) string {
 	}
 	sc.mu.Unlock()
 
-	return fmt.Sprintf("%d %s %s %s %s %s", resp.StatusCode, respCT, common.Hex(raw), joinList(jsonPayloads(rbp, msgs)), joinList(recs), flush)
+	return fmt.Sprintf("%d %s %s %s %s %s %s %s", resp.StatusCode, respCT, common.Hex(raw), joinList(jsonPayloads(rbp, msgs)), joinList(recs), flush,
+		joinList(tr.snapshot()), joinList(chunks))
+}
+
+// traceLog is the shared, ordered event log of one HTTP case.
+type traceLog struct {
+	mu  sync.Mutex
+	evs []string
+}
+
+func (t *traceLog) add(e string) {
+	if t == nil {
+		return
+	}
+	t.mu.Lock()
+	t.evs = append(t.evs, e)
+	t.mu.Unlock()
+}
+
+func (t *traceLog) snapshot() []string {
+	t.mu.Lock()
+	defer t.mu.Unlock()
+	return append([]string(nil), t.evs...)
+}
+
+// recWriter is the http.ResponseWriter handed to the bridge: it records every Write and Flush before passing it on.
+type recWriter struct {
+	http.ResponseWriter
+	tr *traceLog
+}
+
+func (w *recWriter) Write(b []byte) (int, error) {
+	w.tr.add("W" + strconv.Itoa(len(b)))
+	return w.ResponseWriter.Write(b)
+}
+
+func (w *recWriter) Flush() {
+	w.tr.add("F")
+	if f, ok := w.ResponseWriter.(http.Flusher); ok {
+		f.Flush()
+	}
 }
 
 // ---- ws -----------------------------------------------------------------------------------------
@@ -230,7 +278,13 @@ func execWS(f []string) string {
 		return "BADARITY"
 	}
 	cs, ss, bodyExpected := f[1] == "1", f[2] == "1", f[3] == "1"
-	codec := f[4]
+	// codec[~variant]: the variant adds one more Accept value to the handshake which matches no marshaler
+	// (e = text/event-stream, s = */*, q = a quality list, E = TEXT/EVENT-STREAM): the WebSocket record format must not depend on it
+	codec, variant, _ := strings.Cut(f[4], "~")
+	extraAccept, okVariant := wsExtraAccept[variant]
+	if !okVariant {
+		return "BADCODEC"
+	}
 	frames := splitList(f[5])
 	resp := hexList(f[6])
 	end := parseEnd(f[7])
@@ -300,6 +354,9 @@ func execWS(f []string) string {
 			hdr.Set("Accept", "application/json")
 		}
 	}
+	if extraAccept != "" {
+		hdr["Accept"] = append(hdr["Accept"], extraAccept)
+	}
 	dialer := websocket.Dialer{HandshakeTimeout: 5 * time.Second}
 	conn, hresp, err := dialer.Dial("ws"+strings.TrimPrefix(srv.URL, "http")+"/call", hdr)
 	if err != nil {
@@ -308,6 +365,11 @@ func execWS(f []string) string {
 			st = hresp.StatusCode
 		}
 		close(sc.barrier)
+		select {
+		case <-returned:
+		case <-time.After(5 * time.Second):
+			return fmt.Sprintf("%d - - none - noreturn -", st)
+		}
 		return fmt.Sprintf("%d - - none - noupgrade -", st)
 	}
 	defer conn.Close()
@@ -457,6 +519,10 @@ func execWS(f []string) string {
 
 var _ = io.EOF
 
+var wsExtraAccept = map[string]string{
+	"": "", "e": "text/event-stream", "s": "*/*", "q": "text/event-stream;q=0.9, application/json;q=0.8", "E": "TEXT/EVENT-STREAM",
+}
+
 // ---- bind ---------------------------------------------------------------------------------------
 //
 //	bind <cs> <ss> <accept…> <content-type…>
@@ -495,7 +561,20 @@ func execBind(f []string) string {
 	reqMime, reqBin := reqtc.ContentType()
 	respCT, respBin := resptc.ContentType(newMsg("x"))
 	_, streams := resptc.(transcoding.ResponseStreamTranscoder)
-	return fmt.Sprintf("ok %s %s %s %s %s", common.HexS(reqMime), b01(reqBin), common.HexS(respCT), b01(respBin), b01(streams))
+	// the per-message Transcode of the bound response transcoder next to the bare output of the marshaler it was bound to:
+	// record framing (SSE `data:`, NDJSON line feed) belongs to the stream encoder, never to Transcode (WebSocket frames are built from it)
+	doc, terr := resptc.Transcode(newMsg("x"))
+	var bare []byte
+	if respBin {
+		bare, _ = binMarshaler{}.Marshal(nil, newMsg("x").ProtoReflect(), nil)
+	} else {
+		bare, _ = transcoding.DefaultJSONMarshaler.Marshal(testTypes, newMsg("x").ProtoReflect(), nil)
+	}
+	docS := common.Hex(doc)
+	if terr != nil {
+		docS = "!"
+	}
+	return fmt.Sprintf("ok %s %s %s %s %s %s %s", common.HexS(reqMime), b01(reqBin), common.HexS(respCT), b01(respBin), b01(streams), docS, common.Hex(bare))
 }
 
 // ---- wsup ---------------------------------------------------------------------------------------
